@@ -10,7 +10,7 @@ CONSTANTS
   PREC = {"none", "c", "r"}
   MAXFULL = {0, 500}
   SOLVER = {1}
-  SCALES = {"unit"}
+  SCALES = {"unit", "small"}
   SYSCLS = {"spd", "diagdom", "laplace"}
 INVARIANT WellTyped
 CHECK_DEADLOCK FALSE
